@@ -230,9 +230,18 @@ func c07Run(env *fw.Env, raw json.RawMessage) fw.Outcome {
 	editSinceUndo := false // R2: a buffer-changing edit happened after the last undo/redo chain began
 	inChain := false
 	prev := initial
+	diverged := false
 	for i, st := range plan {
 		b, ok := bufAfter(i)
 		if !ok {
+			break
+		}
+		// Vi operations are planned from command mode back to command mode. vi-redo with nothing
+		// to redo enters insert mode (an undo at the oldest state made the plan believe there was
+		// something to redo): from there the keys are typed as text, the plan no longer holds.
+		if w := after[i]; c.Mode == "vi" && w.Main != "vi-command" && (opEnd[i] || i >= nOps) {
+			o.Add("vi_scripts_that_left_command_mode_not_judged_further", 1)
+			diverged = true
 			break
 		}
 		o.O.Events++
@@ -287,7 +296,7 @@ func c07Run(env *fw.Env, raw json.RawMessage) fw.Outcome {
 		}
 	}
 	// R1
-	if bBefore, ok := bufAfter(nOps - 1); ok {
+	if bBefore, ok := bufAfter(nOps - 1); ok && !diverged {
 		if bAfter, ok2 := bufAfter(nOps + 2*c.N - 1); ok2 {
 			// the law is about undos that undo something: an undo at the oldest state is a
 			// no-op in every undo system, and redo then legitimately goes past the start
@@ -317,7 +326,7 @@ func c07Run(env *fw.Env, raw json.RawMessage) fw.Outcome {
 		}
 	}
 	// U2
-	if !c.Walk {
+	if !c.Walk && !diverged {
 		if bEnd, ok := bufAfter(len(plan) - 1); ok {
 			o.O.Events++
 			o.Add("u2_judged", 1)
